@@ -43,7 +43,8 @@ func sp_stepInv[K comparable, V any](t *TinyLfu[K, V]) bool {
 // every entry outside the three regions is unlinked and carries no region flag
 func op_clean[K comparable, V any](t *TinyLfu[K, V]) bool {
 	return all(func(x *Entry[K, V]) bool {
-		return imp(!sp_isRoot(x.flag.Flags) && !sp_tracked(t, x), x.meta.prev == nil && x.meta.next == nil && x.flag.Flags&(2|4|64) == 0)
+		return imp(!sp_isRoot(x.flag.Flags) && !sp_tracked(t, x), x.meta.prev == nil && x.meta.next == nil && x.flag.Flags&(2|4|64) == 0) &&
+			imp(sp_tracked(t, x), x.meta.prev != nil && x.meta.next != nil)
 	})
 }
 
@@ -89,6 +90,7 @@ func (t *TinyLfu[K, V]) spec_demoteFromProtected_loop1() {
 
 // window overflow is moved to probation; returns the first entry moved (nil if none)
 func (t *TinyLfu[K, V]) spec_evictFromWindow() (first *Entry[K, V]) {
+	flag("split_paths")
 	reveal("op_clean", "op_weights")
 	requires("inv", sp_policyInv(t))
 	ensures("inv", sp_policyInv(t))
@@ -134,7 +136,9 @@ func (t *TinyLfu[K, V]) spec_Remove(entry *Entry[K, V], callback bool) {
 		return gh_po_ord(t.window, x) == old(gh_po_ord(t.window, x)) && gh_po_ord(t.slru.probation, x) == old(gh_po_ord(t.slru.probation, x)) && gh_po_ord(t.slru.protected, x) == old(gh_po_ord(t.slru.protected, x))
 	}))
 	ensures("total", t.weightedSize == old(t.weightedSize)-uint(entry.policyWeight))
-	ensures("counts", t.window.count+t.slru.probation.count+t.slru.protected.count == old(t.window.count+t.slru.probation.count+t.slru.protected.count)-1)
+	ensures("counts", t.window.count == old(t.window.count)-ifelse(old(gh_po_in(t.window, entry)), 1, 0) &&
+		t.slru.probation.count == old(t.slru.probation.count)-ifelse(old(gh_po_in(t.slru.probation, entry)), 1, 0) &&
+		t.slru.protected.count == old(t.slru.protected.count)-ifelse(old(gh_po_in(t.slru.protected, entry)), 1, 0))
 	ensures("weights", all(func(x *Entry[K, V]) bool { return x.policyWeight == old(x.policyWeight) }))
 	ensures("caps", t.window.capacity == old(t.window.capacity) && t.slru.protected.capacity == old(t.slru.protected.capacity))
 }
@@ -216,11 +220,78 @@ func (t *TinyLfu[K, V]) spec_admit(candidateKey, victimKey K) (r bool) {
 // a delivered read: the entry (if still tracked) moves to the MRU end of its region or is promoted
 func (t *TinyLfu[K, V]) spec_Access(item ReadBufItem[K, V]) {
 	flag("split_paths")
-	reveal("op_clean", "op_weights")
+	reveal("op_clean", "op_weights", "op_flags")
 	requires("inv", sp_policyInv(t))
 	requires("sketch", sp_sketchInv(t.sketch))
 	requires("entry", item.entry == nil || !sp_isRoot(item.entry.flag.Flags))
 	ensures("inv", sp_policyInv(t))
 	ensures("sketch", sp_sketchInv(t.sketch))
 	ensures("same", sp_sameTracked(t))
+}
+
+// ---- eviction -----------------------------------------------------------------------------------------------
+
+// the region list a queue id denotes in evictFromMain
+func sp_queue[K comparable, V any](t *TinyLfu[K, V], q uint8) *List[K, V] {
+	if q == LIST_PROBATION {
+		return t.slru.probation
+	}
+	if q == LIST_PROTECTED {
+		return t.slru.protected
+	}
+	return t.window
+}
+
+func sp_empty[K comparable, V any](l *List[K, V]) bool {
+	return all(func(x *Entry[K, V]) bool { return !gh_po_in(l, x) })
+}
+
+// nothing is added to the policy, weights are unchanged
+func sp_onlyRemoves[K comparable, V any](t *TinyLfu[K, V]) bool {
+	return all(func(x *Entry[K, V]) bool {
+		return imp(gh_po_in(t.window, x), old(gh_po_in(t.window, x))) && imp(gh_po_in(t.slru.probation, x), old(gh_po_in(t.slru.probation, x))) &&
+			imp(gh_po_in(t.slru.protected, x), old(gh_po_in(t.slru.protected, x))) && x.policyWeight == old(x.policyWeight) &&
+			gh_po_ord(t.window, x) == old(gh_po_ord(t.window, x)) && gh_po_ord(t.slru.probation, x) == old(gh_po_ord(t.slru.probation, x)) &&
+			gh_po_ord(t.slru.protected, x) == old(gh_po_ord(t.slru.protected, x))
+	}) && t.window.capacity == old(t.window.capacity) && t.slru.protected.capacity == old(t.slru.protected.capacity)
+}
+
+// compare candidates against victims until the policy fits; terminates, and ends within capacity
+func (t *TinyLfu[K, V]) spec_evictFromMain(candidate *Entry[K, V]) {
+	flag("split_paths")
+	reveal("op_clean", "op_weights", "op_acct")
+	requires("inv", sp_policyInv(t))
+	requires("sketch", sp_sketchInv(t.sketch) && t.hasher != nil)
+	requires("candidate", candidate == nil || gh_po_in(t.slru.probation, candidate))
+	ensures("inv", sp_policyInv(t))
+	ensures("fits", t.weightedSize <= t.capacity)
+	ensures("only_removes", sp_onlyRemoves(t))
+}
+
+func (t *TinyLfu[K, V]) spec_evictFromMain_loop1(candidate, victim *Entry[K, V], victimQueue, candidateQueue uint8) {
+	invariant("inv", sp_policyInv(t))
+	invariant("only_removes", sp_onlyRemoves(t))
+	invariant("queues", (victimQueue == LIST_PROBATION || victimQueue == LIST_PROTECTED || victimQueue == LIST_WINDOW) &&
+		(candidateQueue == LIST_PROBATION || candidateQueue == LIST_WINDOW))
+	// the victim is the member with the greatest label (the LRU end) of its queue; nil iff the queue is empty
+	invariant("victim_last", imp(victim == nil, sp_empty(sp_queue(t, victimQueue))) && imp(victim != nil,
+		gh_po_in(sp_queue(t, victimQueue), victim) && all(func(y *Entry[K, V]) bool {
+			return imp(gh_po_in(sp_queue(t, victimQueue), y), gh_po_ord(sp_queue(t, victimQueue), y) <= gh_po_ord(sp_queue(t, victimQueue), victim))
+		})))
+	invariant("candidate_member", candidate == nil || gh_po_in(sp_queue(t, candidateQueue), candidate))
+	// queues already exhausted stay empty
+	invariant("stages", imp(victimQueue != LIST_PROBATION, sp_empty(t.slru.probation)) && imp(victimQueue == LIST_WINDOW, sp_empty(t.slru.protected)))
+	decreases(t.window.count, t.slru.probation.count, t.slru.protected.count, ifelse(victimQueue == LIST_PROBATION, 2, ifelse(victimQueue == LIST_PROTECTED, 1, 0)))
+}
+
+func (t *TinyLfu[K, V]) spec_EvictEntries() {
+	reveal("op_clean", "op_weights")
+	requires("inv", sp_policyInv(t))
+	requires("sketch", sp_sketchInv(t.sketch) && t.hasher != nil)
+	ensures("inv", sp_policyInv(t))
+	ensures("fits", t.weightedSize <= t.capacity)
+	ensures("no_new", all(func(x *Entry[K, V]) bool {
+		return imp(sp_tracked(t, x), old(sp_tracked(t, x))) && x.policyWeight == old(x.policyWeight)
+	}))
+	ensures("caps", t.window.capacity == old(t.window.capacity) && t.slru.protected.capacity == old(t.slru.protected.capacity))
 }
